@@ -59,12 +59,15 @@ Judge(e, W, M, tt, aux, x) ==
                  \cup (IF echoing /\ "C08" \in W THEN C08To(ctx08) ELSE {})
                  \cup (IF reduced /\ "C06" \in W THEN C06To(ctx06) ELSE {})
                  \* "never panics for a non-nil source and target": whatever the target holds (a plan, a state, anything)
-                 \cup (IF ~reduced /\ "C06" \in W /\ x.pn THEN {[c |-> "C06.to.nopanic", p |-> M.path, sig |-> PanicSig(M, x.pobj)]} ELSE {})
+                 \* (targets whose attribute types were REPLACED are outside the property's quantifier: the implementation model
+                 \* says what happens there - unchecked assertions on element types panic - and only drift is reported)
+                 \cup (IF ~reduced /\ "C06" \in W /\ x.pn /\ x.ptf.k = "obj" /\ SubTypeOf(TObj(x.ptf.at), tt)
+                       THEN {[c |-> "C06.to.nopanic", p |-> M.path, sig |-> PanicSig(M, x.pobj)]} ELSE {})
                  \cup (IF "C17" \in W /\ x.ptf.k = "obj" THEN C17To([M |-> M, obj |-> x.pobj, pre |-> x.ptf, tf |-> x.tf, hooks |-> x.hooks, dg |-> x.dg, pn |-> x.pn]) ELSE {}),
            evald |-> {p \in {"C03", "C20", "C07", "C02"} : fromEmpty /\ p \in W}
                  \cup {p \in {"C09"} : (refresh \/ idem) /\ p \in W}
                  \cup {p \in {"C08"} : echoing /\ p \in W}
-                 \cup {p \in {"C06"} : p \in W}
+                 \cup {p \in {"C06"} : p \in W /\ x.ptf.k = "obj" /\ SubTypeOf(TObj(x.ptf.at), tt)}
                  \cup {p \in {"C17"} : p \in W /\ HasCustom(M)},
            aux |-> [aux EXCEPT !.rt = IF fromEmpty /\ ~x.pn THEN [armed |-> TRUE, orig |-> x.pobj] ELSE NoRT,
                                \* the echo of a plan leaves a fully-known state as well (what a later refresh meets)
